@@ -86,6 +86,7 @@ def run(ctx):
                 'scale) x rays (inside, outside, behind the origin, parallel, grazing), batch sizes 1-5, both APIs; non-trivial = '
                 'non-parallel ray; distinct by (class, ray kind, coordinates)')
     exact_parallel_cases(ctx)
+    __import__('harness.props.gengeom', fromlist=['x']).check_generated_geometry(ctx, 'C10')   # regenerated definitions vs /repo
     NT = ctx.n(60, 600)
     lines, cases = [], []
     for _ in range(NT):
